@@ -459,3 +459,34 @@ def yacc_rule(src, name):
         else:
             i += 1
     raise ExtractionBroken(f"rule {name}: unterminated")
+
+
+def lower_range_for_map(sl, key_type="auto", val_type="auto", required=False):
+    """Rule L7m: `for ([const] auto[&] [K, V] : EXPR) BODY` -> a loop over the associative stub's accessors
+    (verif_cap / verif_has / verif_key / verif_val): the standard's range-for over a map, entry by entry."""
+    count = 0
+    while True:
+        ts = Source("<slice:%s>" % sl.name, text=sl.text)
+        m = None
+        for mm in re.finditer(r"\bfor\s*\(\s*(?:const\s+)?auto\s*&?\s*\[\s*(\w+)\s*,\s*(\w+)\s*\]\s*:\s*", ts.text):
+            if ts.mask[mm.start()] == "c":
+                m = mm
+                break
+        if not m:
+            break
+        p = ts.text.index("(", m.start())
+        pe = ts.match_brace(p)
+        expr = ts.text[m.end():pe - 1].strip()
+        body_end = _statement_end(ts, pe)
+        body = ts.text[pe:body_end].strip()
+        if body.startswith("{"):
+            body = body[1:-1]
+        k = "verif_mk%d" % count
+        new = ("for (int %s = 0; %s < (%s).verif_cap(); ++%s) { if (!(%s).verif_has(%s)) continue; %s %s = (%s).verif_key(%s); %s %s = (%s).verif_val(%s); %s }"
+               % (k, k, expr, k, expr, k, key_type, m.group(1), expr, k, val_type, m.group(2), expr, k, body))
+        sl.text = ts.text[:m.start()] + new + ts.text[body_end:]
+        count += 1
+    sl.rules["L7m:range-for over a map->accessor loop"] = sl.rules.get("L7m:range-for over a map->accessor loop", 0) + count
+    if required and count == 0:
+        raise ExtractionBroken(f"slice {sl.name}: rule L7m fired 0 times")
+    return sl
